@@ -125,6 +125,18 @@ def scope_family() -> list[tuple[str, str, list]]:
     add("index-nested-and-negative", "grid = [[1, 2], [3, 4]]\nvals = [5, 6, 7]\nmon.write(grid[1][0])\nmon.write(vals[-1])\nmon.write(grid[-1][-1])\n")
     add("index-in-condition-and-arith", "vals = [5, 6, 7]\nk = 1\nif [1, 2, 3][k] > 1:\n    mon.write(vals[k] + [10, 20][0])\n")
     add("list-of-strings-and-floats", 'names = ["a", "bc"]\nfs = [0.5, 1.5]\nmon.write(names[1])\nmon.write(fs[0] + fs[1])\nmon.write(["x", "y"][1])\n')
+    add("global-list-from-helper-indexed-outside", "def refresh(n):\n    global w\n    w = [n, n + 1, n + 2]\nrefresh(4)\nmon.write(w[1])\n",
+        ["global-list-from-helper-indexed-outside"])
+    add("global-list-from-helper-used-in-helper", "def refresh(n):\n    global w\n    w = [n, n + 1, n + 2]\n    return w[-1]\nmon.write(refresh(4))\nmon.write(refresh(7))\n")
+    # lists (flat, nested, of strings / floats) whose FIRST assignment sits inside a branch / loop body: the hoisted declaration
+    # needs a default initialiser of the right type
+    add("list-first-in-branch", "a = 2\nif a > 1:\n    vals = [1, 2, 3]\nelse:\n    vals = [4, 5, 6]\nmon.write(vals[1])\n")
+    add("nested-list-first-in-branch", "a = 2\nif a > 1:\n    grid = [[1, 2], [3, 4]]\nelse:\n    grid = [[5, 6], [7, 8]]\nmon.write(grid[1][0])\n")
+    add("nested-list-first-in-loop", "for i in range(2):\n    rows = [[i, 1], [2, 3]]\nmon.write(rows[0][0])\n")
+    add("string-list-first-in-while", 'k = 0\nwhile k < 2:\n    names = ["a", "bc"]\n    k += 1\nmon.write(names[1])\n')
+    add("float-list-first-in-main-loop-branch", "n = 0\nwhile True:\n    n += 1\n    if n > 1:\n        fs = [0.5, 1.5]\n        mon.write(fs[0])\n")
+    add("nested-list-file-scope-from-variables", "p = 1\nq = 2\ngrid2 = [[p, q], [q, p]]\nmon.write(grid2[0][1])\n")
+    add("prologue-tuple-new-and-existing-used-in-loop", "total = 10\ntotal, last = 0, total\nwhile True:\n    mon.write(last + total)\n")
     add("helper-returns-list", "def mk():\n    return [1, 2, 3]\nv = mk()\nmon.write(v[1])\n")
     add("helper-returns-string", 'def tag(n):\n    return f"id:{n}"\nmon.write(tag(3))\n')
     add("button-handler", 'def hit():\n    mon.write("hit")\nbtn = Button(7, on_click=hit)\nwhile True:\n    mon.write(btn.is_pressed())\n')
